@@ -90,6 +90,10 @@ type Result struct {
 	Blocked  []string // description of blocked threads on deadlock
 	Horizon  bool
 	Panics   map[int]string // thread id -> panic text + stack
+	// IOUnderLock is set when a thread waited for its client (request body
+	// read, response write) while holding a modelled lock or inside a bolt
+	// transaction: a stalled client would then block every other request.
+	IOUnderLock string
 }
 
 // Sched is one execution's scheduler.
@@ -99,6 +103,7 @@ type Sched struct {
 	yield       chan struct{}
 	atomicDepth int
 	aborting    bool
+	ioUnderLock string
 }
 
 var cur *Sched
@@ -119,6 +124,13 @@ func (s *Sched) Aborting() bool { return s.aborting }
 // the explorer schedules the thread again, at which moment guard() holds and
 // the caller performs the operation without interruption until its next Point.
 func (s *Sched) Point(kind Kind, label string, guard func() bool) {
+	if (kind == KBodyRead || kind == KRespWrite) && !s.aborting && s.running >= 0 && s.ioUnderLock == "" {
+		if s.atomicDepth > 0 {
+			s.ioUnderLock = kind.String() + " inside a bolt transaction"
+		} else if s.threads[s.running].locks > 0 {
+			s.ioUnderLock = kind.String() + " while holding a lock"
+		}
+	}
 	if s.atomicDepth > 0 || s.aborting {
 		return
 	}
@@ -294,6 +306,7 @@ func Run(bodies []func(), choose func(i int, p *PointInfo) int, horizon int) *Re
 			res.Panics[t.id] = fmt.Sprintf("%v\n%s", t.panicV, t.stack)
 		}
 	}
+	res.IOUnderLock = s.ioUnderLock
 	return res
 }
 
